@@ -142,12 +142,44 @@ func (e *Exec) decide(b Bool) bool {
 	return e.branch(b.T)
 }
 
+// maxTermLen is the size above which a term is given a name (a fresh
+// constant defined equal to it), so that repeated use (x = x*x) does not
+// duplicate text exponentially.
+const maxTermLen = 400
+
+func (e *Exec) named(v value) value {
+	switch x := v.(type) {
+	case Int:
+		if x.T != nil && len(x.T.S) > maxTermLen {
+			n := e.fresh("t", bvSort(x.W))
+			e.sol.Send("(assert (= " + n.S + " " + x.T.S + "))")
+			x.T = n
+			return x
+		}
+	case Float:
+		if x.T != nil && len(x.T.S) > maxTermLen {
+			n := e.fresh("t", fpSort)
+			e.sol.Send("(assert (= " + n.S + " " + x.T.S + "))")
+			x.T = n
+			return x
+		}
+	case Bool:
+		if x.T != nil && len(x.T.S) > 4*maxTermLen {
+			n := e.fresh("t", "Bool")
+			e.sol.Send("(assert (= " + n.S + " " + x.T.S + "))")
+			x.T = n
+			return x
+		}
+	}
+	return v
+}
+
 func (e *Exec) binop(op token.Token, t types.Type, x, y value) value {
 	switch x := x.(type) {
 	case Int:
-		return e.intBinopE(op, x, y.(Int))
+		return e.named(e.intBinopE(op, x, y.(Int)))
 	case Float:
-		return floatBinop(op, x, y.(Float))
+		return e.named(floatBinop(op, x, y.(Float)))
 	case Bool:
 		yb := y.(Bool)
 		var eq Bool
